@@ -430,6 +430,7 @@ func ruleFanOut(c *Ctx) {
 	for _, f := range []*ssa.Function{run, spawn, despawn} {
 		ruleLockReleased(c, f, mutexF)
 	}
+	ruleInsertUnderMiss(c, spawn, outputsF)
 	// R15.4 blocking send while holding the lock removal needs
 	for _, bo := range la.blocking {
 		if bo.Kind != "send" || !bo.Locks[lockKey] {
@@ -729,4 +730,79 @@ func baseName(fn *ssa.Function) string {
 		n = n[:i]
 	}
 	return n
+}
+
+// ruleInsertUnderMiss: SpawnOutput may only insert under an id it has just seen absent from the map.
+func ruleInsertUnderMiss(c *Ctx, spawn *ssa.Function, outputsF *types.Var) {
+	vw := NewFnView(c.P, spawn)
+	found := false
+	for _, b := range spawn.Blocks {
+		for _, in := range b.Instrs {
+			mu, ok := in.(*ssa.MapUpdate)
+			if !ok || !derivesFromField(mu.Map, outputsF, map[ssa.Value]bool{}) {
+				continue
+			}
+			found = true
+			key := "utils.DynamicFanOut.SpawnOutput/insert-only-under-a-free-id"
+			keyTerm := vw.Term(mu.Key).String()
+			okMiss := missGuard(vw, b, nil, keyTerm, outputsF, 0)
+			c.Check(okMiss, "R15.3", key, c.P.Pos(mu.Pos()), "the id inserted was looked up (comma-ok) and found absent on every path to the insert",
+				"a new output is inserted under an id that was not checked to be free: a live device's entry can be overwritten (it stops receiving MIDI input and its channel is never closed)")
+		}
+	}
+	if !found {
+		c.Bad("R15.3", "utils.DynamicFanOut.SpawnOutput/insert-only-under-a-free-id", c.P.Pos(spawn.Pos()), "SpawnOutput does not insert into the output map")
+	}
+}
+
+// missGuard: the conditions holding at block b (plus extra edge conditions) include a failed comma-ok lookup of keyTerm
+// in the outputs map - directly, or through a boolean flag that is only set to true under such a miss.
+func missGuard(vw *FnView, b *ssa.BasicBlock, extra []Atom, keyTerm string, outputsF *types.Var, depth int) bool {
+	if depth > 3 {
+		return false
+	}
+	atoms := append(vw.GuardsAt(b), extra...)
+	for _, a := range atoms {
+		cnd, taken := a.Cond, a.Taken
+		for cnd.Op == "unop" && cnd.Aux == "!" {
+			cnd, taken = cnd.Args[0], !taken
+		}
+		if cnd.Op == "lookupok" && !taken && cnd.Args[1].String() == keyTerm && strings.HasSuffix(cnd.Args[0].String(), ".outputs") {
+			return true
+		}
+	}
+	// boolean flag: a phi that is true only on edges guarded by the miss
+	for _, a := range atoms {
+		if a.Instr == nil {
+			continue
+		}
+		phi, ok := a.Instr.Cond.(*ssa.Phi)
+		if !ok || !a.Taken {
+			continue
+		}
+		okAll, any := true, false
+		for i, e := range phi.Edges {
+			k, isK := e.(*ssa.Const)
+			if isK && k.Value != nil && k.Value.String() == "false" {
+				continue
+			}
+			if !isK {
+				okAll = false
+				continue
+			}
+			any = true
+			pred := phi.Block().Preds[i]
+			var ex []Atom
+			if ifi, isIf := pred.Instrs[len(pred.Instrs)-1].(*ssa.If); isIf && pred.Succs[0] != pred.Succs[1] {
+				ex = append(ex, Atom{Cond: vw.Term(ifi.Cond), Taken: pred.Succs[0] == phi.Block(), Instr: ifi})
+			}
+			if !missGuard(vw, pred, ex, keyTerm, outputsF, depth+1) {
+				okAll = false
+			}
+		}
+		if okAll && any {
+			return true
+		}
+	}
+	return false
 }
